@@ -87,6 +87,27 @@ def accumulate_add(iterable, initial, has_initial):
         yield total
 
 
+def chain_n(*iterables):
+    for iterable in iterables:
+        for item in iterable:
+            yield item
+
+
+def chain_from_iterable(iterables):
+    for iterable in iterables:
+        for item in iterable:
+            yield item
+
+
+def islice_stop(iterable, stop):
+    count = 0
+    for item in iterable:
+        if count >= stop:
+            return
+        yield item
+        count += 1
+
+
 def compress2(data, selectors):
     for item, flag in zip(data, selectors):
         if flag:
